@@ -169,10 +169,15 @@ def check(run):
     vlib.standard_proof_step(run, ['Types/InferCheck.vo', 'Types/InferCertProofs.vo', 'Types/FnDefs.vo'])
     rnd = random.Random(run.seed * 104729 + 19)
     items = [(name, src, vecs, None, 'corpus') for name, src, vecs in corpus()]
+    # the order in which Analyzer.visit_node folds the predecessors is the iteration order of a WeakSet (memory
+    # addresses): programs of the loop-join stream are analysed several times, each on a fresh parse
+    reps_loop = 8 if quick else 12
     lau_rnd = random.Random(run.seed + 4242)
     for i in range(nprog):
         c = rnd.random()
-        if c < 0.45:
+        if c < 0.08:
+            opts, stream, dec = L.GOpts(untyped=False, nested=False, loopmut=True, max_stmts=6), 'loop-join', None
+        elif c < 0.45:
             opts, stream, dec = L.GOpts(untyped=False, nested=False), 'typed', None
         elif c < 0.65:
             opts, stream, dec = L.GOpts(untyped=False, nested=True), 'typed-nested', None
@@ -222,7 +227,18 @@ def check(run):
                                     src, vecs, None))
             continue
         stats['annotated_nodes'] += len(r['an'].types)
-        for f in r['fails']:
+        fails = list(r['fails'])
+        if stream == 'loop-join' or name.startswith('ok_loop'):
+            fails = [dict(f, repetitions=2 * reps_loop) for f in fails]
+            for _ in range(reps_loop - 1):
+                try:
+                    r2 = one_program(src, vecs, decline=dec[0] if dec else None, local_args_unknown=lau)
+                except Exception:   # noqa
+                    continue
+                stats['repeated_analyses'] = stats.get('repeated_analyses', 0) + 1
+                run.count(len(r2['runs']))
+                fails += [dict(f, repetitions=2 * reps_loop) for f in r2['fails']]
+        for f in fails:
             if f['cause'] in (UNTYPED, SIDE, ALIAS, STAR, NLJOIN):
                 known[f['cause']] += 1
                 run.violation(describe(f), {}, classify=f['cause'])
@@ -291,13 +307,19 @@ def check(run):
         srnd = random.Random(run.seed + 7)
         for src, vecs in todo[:60]:
             more = [[srnd.choice(L.ARG_POOL) for _ in L.PARAMS] for _ in range(6)]
-            try:
-                r = one_program(src, vecs + more, local_args_unknown=True)
-            except Exception:   # noqa
-                continue
-            bad = [f for f in r['fails'] if not f['cause']]
+            bad = []
+            for k in range(8):      # fresh parse each time: the fold order of the predecessors depends on addresses
+                try:
+                    r = one_program(src, vecs + (more if k % 2 else []), local_args_unknown=True)
+                except Exception:   # noqa
+                    continue
+                bad = [f for f in r['fails'] if not f['cause']]
+                if bad:
+                    more = more if k % 2 else []
+                    break
             if bad:
-                found = (describe(bad[0]), {'program': src, 'argument_vectors': repr(vecs + more), 'failure': bad[0],
+                found = (describe(bad[0]), {'program': src, 'argument_vectors': repr(vecs + more),
+                                            'failure': dict(bad[0], local_args_unknown=True, repetitions=16),
                                             'replay': 'bin/check C19 --replay <this file>'})
                 break
         if found:
@@ -328,18 +350,23 @@ def replay(path):
         print(json.dumps(doc, indent=1))
         return 0
     vecs = rp.get('argument_vectors') or '[[1, 1, 2]]'
-    kinds = (rp.get('failure') or {}).get('resolver_declines') or []
-    r = one_program(src, ast.literal_eval(vecs) if isinstance(vecs, str) else vecs,
-                    decline=(lambda kind: kind in kinds) if kinds else None,
-                    local_args_unknown=bool((rp.get('failure') or {}).get('local_args_unknown')))
+    fl = rp.get('failure') or {}
+    kinds = fl.get('resolver_declines') or []
     print(src)
-    if r['diverged']:
-        print('type inference did not reach a fixed point')
-        return 1
     bad = 0
-    for f in r['fails']:
-        print(('KNOWN [%s] ' % f['cause'] if f['cause'] else 'FAIL ') + describe(f))
-        bad += 0 if f['cause'] else 1
-    if not r['fails']:
-        print('every reported set covers the run-time types')
+    nrep = int(fl.get('repetitions') or 1)     # order-dependent results: analysed on several fresh parses
+    for k in range(nrep):
+        r = one_program(src, ast.literal_eval(vecs) if isinstance(vecs, str) else vecs,
+                        decline=(lambda kind: kind in kinds) if kinds else None,
+                        local_args_unknown=bool(fl.get('local_args_unknown')))
+        if r['diverged']:
+            print('type inference did not reach a fixed point')
+            return 1
+        for f in r['fails']:
+            print(('KNOWN [%s] ' % f['cause'] if f['cause'] else 'FAIL ') + describe(f) + (' (analysis %d of %d)' % (k + 1, nrep) if nrep > 1 else ''))
+            bad += 0 if f['cause'] else 1
+        if bad:
+            break
+    if not bad:
+        print('every reported set covers the run-time types' + (' in %d analyses' % nrep if nrep > 1 else ''))
     return 1 if bad else 0
